@@ -81,17 +81,24 @@ def check(case: Dict[str, Any]) -> CaseInfo:
             orig = run.graph
             cur = orig
             base_bd = hta_call("breakdown(original)", lambda: breakdown_rows(orig))
+            diverged = False
             for i, op in enumerate(case["history"]):
                 step = f"step {i} {op[0]}"
                 if op[0] == "cycle":
                     out_dir = os.path.join(d, f"cp{i}")
+                    bd_before = hta_call("breakdown(before save)", lambda: breakdown_rows(cur))
+                    before = snapshot(cur)  # the object being saved: the restored one must be identical to it
                     zip_file = hta_call("save", lambda: cur.save(out_dir))
                     require(os.path.exists(zip_file), "save:zip_exists", zip_file)
                     residue.append(os.path.join("/tmp", out_dir.lstrip("/")))
                     cur = hta_call("restore_cpgraph", lambda: restore_cpgraph(zip_file, run.ta.t, run.rank))
                     cycles += 1
-                    compare(snapshot(orig), snapshot(cur), step)
+                    compare(before, snapshot(cur), step)
+                    # and still the same graph as the in-memory original (paths only while no recomputation could have
+                    # broken a tie between equally heavy paths differently in the two objects)
+                    compare(snapshot(orig), snapshot(cur), step, skip_path=diverged)
                 elif op[0] == "recompute":
+                    diverged = True
                     ok = hta_call("critical_path(restored)", lambda: cur.critical_path())
                     require(ok is True, "recompute:succeeds", str(ok))
                     hta_call("critical_path(original)", lambda: orig.critical_path())
@@ -117,13 +124,15 @@ def check(case: Dict[str, Any]) -> CaseInfo:
                             "reweight:same_total_weight", lambda: f"after {step}: {path_weight(cur)} vs {path_weight(orig)} (max {best})")
                     compare(snapshot(orig), snapshot(cur), step, skip_path=True)
                     classes.append("reweighted")
+                    diverged = True
                 if cur is not orig and op[0] == "cycle":
                     bd = hta_call("breakdown(restored)", lambda: breakdown_rows(cur))
-                    if "reweighted" not in classes and not any(o[0] == "recompute" for o in case["history"][:i]):
+                    if not diverged:
                         require(bd == base_bd, "restore:breakdown_equal", lambda: f"after {step}: {bd} vs {base_bd}")
                     else:
-                        bd_o = hta_call("breakdown(original)", lambda: breakdown_rows(orig))
-                        require(bd == bd_o, "restore:breakdown_equal", lambda: f"after {step}: {bd} vs {bd_o}")
+                        # after a recomputation the two objects may hold different, equally heavy paths: compare the
+                        # restored breakdown with the one of the object that was saved
+                        require(bd == bd_before, "restore:breakdown_equal", lambda: f"after {step}: {bd} vs {bd_before}")
         finally:
             if residue:
                 shutil.rmtree(os.path.join("/tmp", d.lstrip("/")), ignore_errors=True)
